@@ -12,6 +12,7 @@ package main
 
 import (
 	"fmt"
+	"math"
 	"os"
 	"reflect"
 	"sort"
@@ -151,6 +152,9 @@ func c20TypeOfVal(v V) reflect.Type {
 var c20Shared = map[int]reflect.Value{}
 var c20SharedText = map[int]string{}
 
+// the keys of every map built for the current value, in the order of the text
+var c20MapKeys = map[uintptr][]reflect.Value{}
+
 // c20ShareID returns the sharing id of a slice / map / pointer node (0 = none):
 // one more trailing element after the regular ones.
 func c20ShareID(v V, regular int) int {
@@ -254,9 +258,13 @@ func c20Build1(v V, t reflect.Type) reflect.Value {
 			return r // nil map
 		}
 		m := reflect.MakeMap(t)
+		keys := []reflect.Value{}
 		for _, kv := range v.L[4].L {
-			m.SetMapIndex(c20Build(kv.L[0], t.Key()), c20Build(kv.L[1], t.Elem()))
+			key := c20Build(kv.L[0], t.Key())
+			keys = append(keys, key)
+			m.SetMapIndex(key, c20Build(kv.L[1], t.Elem()))
 		}
+		c20MapKeys[m.Pointer()] = keys
 		if m.Len() != len(v.L[4].L) {
 			c20Fatal("duplicate map keys in a generated case: %v", c20Dump(v))
 		}
@@ -313,6 +321,7 @@ func c20Arg(v V) (data interface{}) {
 	}()
 	c20Shared = map[int]reflect.Value{}
 	c20SharedText = map[int]string{}
+	c20MapKeys = map[uintptr][]reflect.Value{}
 	if v.IsList() && len(v.L) == 1 && !v.L[0].IsList() && v.L[0].Z.Sign() == 0 {
 		return nil
 	}
@@ -320,6 +329,187 @@ func c20Arg(v V) (data interface{}) {
 		c20Fatal("top-level value of interface kind")
 	}
 	return c20Build(v, c20TypeOfVal(v)).Interface()
+}
+
+
+// ---- labels for the full report of Stat (see Run/C20.v, dec_l)
+
+// c20PtrInside: does the %s text of a map key show an address?
+func c20PtrInside(rv reflect.Value) bool {
+	switch rv.Kind() {
+	case reflect.Ptr:
+		return !rv.IsNil()
+	case reflect.Interface:
+		return !rv.IsNil() && c20PtrInside(rv.Elem())
+	case reflect.Struct:
+		for i := 0; i < rv.NumField(); i++ {
+			if c20PtrInside(rv.Field(i)) {
+				return true
+			}
+		}
+	case reflect.Array:
+		for i := 0; i < rv.Len(); i++ {
+			if c20PtrInside(rv.Index(i)) {
+				return true
+			}
+		}
+	}
+	return false
+}
+
+// c20Label walks the text and the BUILT value in parallel and writes the label tree:
+// [x<type>, [[x<edge>, label], ...]].  stable = false when a label cannot be reproduced by
+// building the value again (a map key whose %s text contains an address) or contains a newline.
+func c20Label(v V, rv reflect.Value, stable *bool) string {
+	k := v.L[0].Int()
+	if reflect.Kind(k) != rv.Kind() {
+		c20Fatal("label: kind %d but the value is a %s", k, rv.Kind())
+	}
+	ty := rv.Type().String()
+	if strings.ContainsAny(ty, "\n") {
+		*stable = false
+	}
+	kid := func(edge string, sub V, x reflect.Value) string {
+		if strings.ContainsAny(edge, "\n") {
+			*stable = false
+		}
+		return L(Str(edge), c20Label(sub, x, stable))
+	}
+	kids := []string{}
+	switch k {
+	case 23, 17:
+		elems := v.L[len(v.L)-1]
+		if k == 23 {
+			elems = v.L[3]
+		} else {
+			elems = v.L[2]
+		}
+		if rv.Len() != len(elems.L) {
+			c20Fatal("label: length")
+		}
+		for i, e := range elems.L {
+			kids = append(kids, kid("", e, rv.Index(i)))
+		}
+	case 21:
+		if len(v.L[4].L) != rv.Len() {
+			c20Fatal("label: map length")
+		}
+		if rv.Len() > 0 {
+			keys := c20MapKeys[rv.Pointer()]
+			if len(keys) != rv.Len() {
+				c20Fatal("label: map keys were not recorded")
+			}
+			for i, kv := range v.L[4].L {
+				if c20PtrInside(keys[i]) {
+					*stable = false
+				}
+				x := rv.MapIndex(keys[i])
+				if !x.IsValid() {
+					c20Fatal("label: key %d is not in the map", i)
+				}
+				kids = append(kids, kid(fmt.Sprintf("%s", keys[i]), kv.L[1], x))
+			}
+		}
+	case 22:
+		if (len(v.L[2].L) == 0) != rv.IsNil() {
+			c20Fatal("label: nil pointer")
+		}
+		if !rv.IsNil() {
+			if rv.Type() == reflect.TypeOf((*c20IntRead)(nil)) {
+				// written as a pointer to an int32 scalar
+				kids = append(kids, L("x", L(Str(rv.Elem().Type().String()), L())))
+			} else {
+				kids = append(kids, kid("", v.L[2].L[0], rv.Elem()))
+			}
+		}
+	case 20:
+		if (len(v.L[2].L) == 0) != rv.IsNil() {
+			c20Fatal("label: nil interface")
+		}
+		if !rv.IsNil() {
+			kids = append(kids, kid("", v.L[2].L[0], rv.Elem()))
+		}
+	case 25:
+		if len(v.L[1].L) != rv.NumField() {
+			c20Fatal("label: struct field count")
+		}
+		for i, fv := range v.L[1].L {
+			kids = append(kids, kid(rv.Type().Field(i).Name, fv, rv.Field(i)))
+		}
+	}
+	return L(Str(ty), L(kids...))
+}
+
+// c20Labels builds the value of a text and returns its label tree
+func c20Labels(v V) (lab string, stable bool) {
+	data := c20Arg(v)
+	if data == nil {
+		return L(), true
+	}
+	stable = true
+	lab = c20Label(v, reflect.ValueOf(data), &stable)
+	return
+}
+
+// c20Det mirrors det_text / det_lines of Spec/SizeStatSpec.v: is the text / the set of lines of
+// Stat(v, depth, maxItem) independent of Go's random map order?  Also reports what the limits cut.
+type c20DetInfo struct {
+	text, lines      bool
+	cutDepth, cutMax bool
+	listed           int
+}
+
+func (d *c20DetInfo) walk(v V, depth, maxItem int) {
+	d.listed++
+	k := v.L[0].Int()
+	if depth == 0 {
+		if k >= 17 && k != 24 {
+			d.cutDepth = true
+		}
+		return
+	}
+	depth--
+	items := func(elems []V, get func(e V) V) {
+		for i, e := range elems {
+			if i >= maxItem {
+				d.cutMax = true
+				break
+			}
+			d.walk(get(e), depth, maxItem)
+		}
+	}
+	switch k {
+	case 23:
+		items(v.L[3].L, func(e V) V { return e })
+	case 17:
+		items(v.L[2].L, func(e V) V { return e })
+	case 21:
+		n := len(v.L[4].L)
+		if maxItem >= 1 {
+			if n >= 2 {
+				d.text = false
+			}
+			if n >= 2 && n > maxItem {
+				d.lines = false
+			}
+		}
+		items(v.L[4].L, func(e V) V { return e.L[1] })
+	case 22:
+		for _, e := range v.L[2].L {
+			d.walk(e, depth, maxItem)
+		}
+	case 20:
+		if len(v.L[2].L) == 0 {
+			d.listed++ // the "<nil>" line
+		}
+		for _, e := range v.L[2].L {
+			d.walk(e, depth, maxItem)
+		}
+	case 25:
+		for _, e := range v.L[1].L {
+			d.walk(e, depth, maxItem)
+		}
+	}
 }
 
 func init() {
@@ -351,6 +541,34 @@ func init() {
 			return L(Str(first))
 		}
 		return L(I(n))
+	}
+	// the whole report.  args: value, labels, depth, maxItem, AvgOf, [] | [k] (AvgUnit = 2^k)
+	c20Stat := func(a []V) string {
+		data := c20Arg(a[0])
+		if data != nil {
+			// the labels given to the model must be the ones of THIS value (a shrunk or edited
+			// case whose labels do not fit is not a case)
+			stable := true
+			lab, err := ParseVal(c20Label(a[0], reflect.ValueOf(data), &stable))
+			if err != nil || c20Dump(lab) != c20Dump(a[1]) {
+				c20Fatal("labels do not fit the value:\n%s\n%s", c20Dump(lab), c20Dump(a[1]))
+			}
+		}
+		avgOf := a[4].Int()
+		if avgOf == 0 && len(a[5].L) == 0 {
+			return size.Stat(data, a[2].Int(), a[3].Int())
+		}
+		opt := size.Opt{AvgOf: avgOf}
+		if len(a[5].L) == 1 {
+			opt.AvgUnit = math.Ldexp(1, a[5].L[0].Int())
+		}
+		return size.Stat(data, a[2].Int(), a[3].Int(), opt)
+	}
+	Exec["size.Stat/text"] = func(a []V) string { return Str(c20Stat(a)) }
+	Exec["size.Stat/sorted"] = func(a []V) string {
+		lines := strings.Split(c20Stat(a), "\n")
+		sort.Strings(lines)
+		return Strs(lines)
 	}
 	Register("C20", genC20)
 }
@@ -799,6 +1017,49 @@ func genC20(g *Gen) {
 			sk = fmt.Sprintf("%s/stat%d,%d", key, d, m)
 		}
 		g.Do("size.Stat", L(text, Int(d), Int(m)), sk)
+
+		// the whole report, where it does not depend on Go's random map order
+		v, err := ParseVal(text)
+		if err != nil {
+			c20Fatal("generated text does not parse: %v", err)
+		}
+		lab, stable := c20Labels(v)
+		if !stable {
+			g.Stat("report-skipped-unstable-label")
+			return
+		}
+		d, m = g.R.Pick(0, 1, 1, 2, 2, 3, 4, 10, -1, -1, -7), g.R.Pick(0, 1, 1, 2, 3, 5, 100, 100, -1)
+		det := &c20DetInfo{text: true, lines: true}
+		if len(v.L) > 1 {
+			det.walk(v, d, m)
+		}
+		if !det.lines {
+			// look for limits under which the map order cannot show
+			d, m = g.R.Pick(1, 2, 3, -1), 100
+			det = &c20DetInfo{text: true, lines: true}
+			det.walk(v, d, m)
+		}
+		avg, unit := 0, L()
+		if g.R.Intn(3) == 0 {
+			avg = g.R.Pick(1, 2, 3, 7, 10, 100, 1000, 4096, 1<<20+1, 1<<40, g.R.Range(1, 1<<16), -5)
+			unit = []string{L(), L("0"), L("-3"), L("3"), L("1"), L("-10")}[g.R.Pick(0, 0, 1, 2, 2, 3, 4, 5)]
+		}
+		op := "size.Stat/text"
+		switch {
+		case det.text:
+			g.Stat("report-text")
+		case det.lines:
+			op = "size.Stat/sorted"
+			g.Stat("report-sorted")
+		default:
+			g.Stat("report-skipped-random-map-order")
+			return
+		}
+		rk := ""
+		if det.listed >= 3 || avg > 0 {
+			rk = fmt.Sprintf("%s/report%d,%d/cutD%s/cutM%s/avg%s/%s", key, minInt(d, 5), minInt(m, 6), B(det.cutDepth), B(det.cutMax), B(avg > 0), op[10:])
+		}
+		g.Do(op, L(text, lab, Int(d), Int(m), Int(avg), unit), rk)
 	}
 	gen := &c20Gen{r: g.R, budget: 1 << 30}
 	gen.reset(0)
